@@ -114,7 +114,16 @@ def _gen_stmt(rng, layout, here, is_init, cfg, idx, in_class=False):
         body = [_gen_stmt(rng, layout, here, is_init, cfg, idx * 10 + j, in_class=True) for j in range(rng.choice([0, 1, 2]))]
         # bases are names of the module scope: local classes, imported (possibly cyclic or dangling) aliases, or itself
         bases = rng.sample(NAMES, rng.choice([0, 0, 1, 1, 2])) if cfg["bases"] else []
-        return {"s": "class", "name": rng.choice(["C", "C", "h"]), "body": body, "bases": bases}
+        if cfg["bases"] and bases and rng.random() < 0.3:
+            # a base written as an attribute access: the path to it can pass through (dangling, cyclic) aliases
+            bases[0] = rng.choice(MODS + ["m", "s"]) + "." + bases[0]
+        st = {"s": "class", "name": rng.choice(["C", "C", "h"]), "body": body, "bases": bases}
+        if cfg.get("dataclasses") and rng.random() < 0.6:
+            # the built-in dataclasses extension synthesises __init__ from the class body and the MRO while loading
+            st["dataclass"] = rng.choice(["dataclass", "dataclasses.dataclass", "dataclass(kw_only=True)"])
+            for j in range(rng.choice([1, 2])):
+                body.insert(rng.randrange(len(body) + 1), {"s": "annattr", "name": rng.choice(NAMES), "default": rng.random() < 0.5})
+        return st
     target = _gen_target_module(rng, layout, here, cfg)
     spec = target
     if rng.random() < cfg["p_relative"]:
@@ -151,10 +160,16 @@ def _render_stmt(st, ind=""):
         return f"{ind}def {st['name']}():\n{body}{ind}    return None\n"
     if s == "attr":
         return f"{ind}{st['name']} = 1\n"
+    if s == "annattr":
+        return f"{ind}{st['name']}: int" + (" = 0" if st.get("default") else "") + "\n"
     if s == "class":
         body = "".join(_render_stmt(b, ind + "    ") for b in st["body"]) or f"{ind}    pass\n"
         bases = f"({', '.join(st['bases'])})" if st.get("bases") else ""
-        return f"{ind}class {st['name']}{bases}:\n{body}"
+        deco = ""
+        if st.get("dataclass"):
+            imp = "import dataclasses" if st["dataclass"].startswith("dataclasses.") else "from dataclasses import dataclass"
+            deco = f"{ind}{imp}\n{ind}@{st['dataclass']}\n"
+        return f"{deco}{ind}class {st['name']}{bases}:\n{body}"
     if s == "from":
         return f"{ind}from {st['mod']} import {st['name']}" + (f" as {st['as']}" if st["as"] else "") + "\n"
     if s == "import":
@@ -205,6 +220,7 @@ def generate(rng, opts):
         "links": rng.random() < 0.3,
         "bases": rng.random() < 0.5,
         "p_guarded": rng.choice([0.0, 0.0, 0.3]),
+        "dataclasses": rng.random() < 0.3,
     }
     n_pkgs = rng.choice([1, 1, 2, 2, 3])
     layout = {}
